@@ -14,7 +14,7 @@ structure Func where
   result : Ty
 deriving DecidableEq, Repr
 
-/-- elements of a wire provider set, already flattened -/
+/-- elements of a wire provider set, already flattened (`Cfg.parts` remembers which element list each was written in) -/
 inductive Item where
   | func (f : Func)
   | bind (iface : Nat) (impl : Ty)                 -- wire.Bind(new(In), new(impl))
@@ -28,7 +28,14 @@ structure Cfg where
   ret : Ty
   /-- every function declared in the package (constructor lookup by name sees all of them) -/
   pkgFuncs : List Func
+  /-- element-list id of each item, in item order: the items come from several element lists (the arguments of one
+      `wire.NewSet(...)` / `wire.Build(...)` each); `parts[i]` names the list the `i`-th item was written in.  Missing
+      entries mean list `0`, so `parts := []` puts every item in one list. -/
+  parts : List Nat := []
 deriving Repr
+
+/-- the element list the item at index `i` was written in -/
+def partOf (c : Cfg) (i : Nat) : Nat := c.parts.getD i 0
 
 def ctorName (n : Nat) : Nat := 1000 + n       -- the name `New<Tn>`
 def mkName (n : Nat) : Nat := 2000 + n         -- struct literal `Tn{…}`
@@ -87,38 +94,71 @@ def wireEval (c : Cfg) : Nat → Ty → V
 /-! ### kessoku migrate (transform_*.go), on the same abstract configuration -/
 
 inductive KItem where
-  | provide (f : Func)                       -- kessoku.Provide(f)
-  | bindProvide (iface : Nat) (f : Func)     -- kessoku.Bind[In](kessoku.Provide(f))
+  | provide (f : Func)                            -- kessoku.Provide(f)
+  | bindProvide (ifaces : List Nat) (f : Func)    -- kessoku.Bind[Ik](…kessoku.Bind[I1](kessoku.Provide(f))…), ifaces = [I1, …, Ik]
 deriving DecidableEq, Repr
 
 def tyName : Ty → Option Nat
   | .val n => some n | .ptr n => some n | _ => none
 
-/-- implementation types bound by some `wire.Bind` (one pointer level removed, as `collectBoundTypes`) -/
-def boundTypes (items : List Item) : List Ty :=
-  items.filterMap fun | .bind _ impl => some impl | _ => none
+/-- implementation types bound by some `wire.Bind` **written in element list `k`** (as `collectBoundTypes`, which
+    `transformElements` calls on the direct elements of the one list it is transforming) -/
+def boundTypesIn (c : Cfg) (k : Nat) : List Ty :=
+  c.items.zipIdx.filterMap fun p => match p.1 with
+    | .bind _ impl => if partOf c p.2 = k then some impl else none
+    | _ => none
 
-def migrateItem (c : Cfg) : Item → Option (List KItem)
-  | .func f => if (boundTypes c.items).contains f.result then some [] else some [.provide f]
+/-- the `wire.Bind`s on implementation `impl` written in element list `k`, as `(interface, item index)`, in item order -/
+def bindsOn (c : Cfg) (k : Nat) (impl : Ty) : List (Nat × Nat) :=
+  c.items.zipIdx.filterMap fun p => match p.1 with
+    | .bind i impl' => if impl' = impl ∧ partOf c p.2 = k then some (i, p.2) else none
+    | _ => none
+
+/-- an earlier item of the element list of index `idx` is a `wire.Bind` on the same implementation `impl` -/
+def hasEarlierBind (c : Cfg) (idx : Nat) (impl : Ty) : Bool :=
+  (bindsOn c (partOf c idx) impl).any fun q => q.2 < idx
+
+/-- the interfaces of the later `wire.Bind`s on `impl` in the element list of index `idx`, in item order -/
+def laterIfaces (c : Cfg) (idx : Nat) (impl : Ty) : List Nat :=
+  ((bindsOn c (partOf c idx) impl).filter fun q => idx < q.2).map (·.1)
+
+/-- migration of the item at index `idx`.
+    * a provider function is dropped when its result type is bound by a `wire.Bind` of **its own element list**;
+    * the **first** `wire.Bind` on an implementation in its element list becomes one item
+      `Bind[Ik](…Bind[I1](Provide(New<T>))…)` carrying its own interface followed by the interfaces of every later `Bind` on
+      the same implementation in the same element list (the Go code wraps the earlier item once per later `Bind`); those
+      later `Bind`s emit nothing.  The constructor is looked up by name and the migration refuses when it is missing; a
+      later `Bind` on the same implementation would fail the very same lookup (same `impl`, same `pkgFuncs`), so refusing
+      at the first `Bind` only is equivalent to refusing at each. -/
+def migrateItem (c : Cfg) (idx : Nat) : Item → Option (List KItem)
+  | .func f => if (boundTypesIn c (partOf c idx)).contains f.result then some [] else some [.provide f]
   | .bind i impl =>
+      if hasEarlierBind c idx impl then some []     -- nested into the item of the first Bind on `impl` of this list
+      else
       -- constructor looked up **by name** `New<T>` among the package's functions
       match tyName impl with
       | none => none
-      | some n => (c.pkgFuncs.find? (fun f => f.name == ctorName n)).map (fun f => [.bindProvide i f])
+      | some n => (c.pkgFuncs.find? (fun f => f.name == ctorName n)).map
+                    (fun f => [.bindProvide (i :: laterIfaces c idx impl) f])
   | .structP n fs => some [.provide { name := mkPtrName n, params := fs, result := .ptr n }]   -- always *T
   | .fieldsOf n _ fs => some (fs.map (fun ft => KItem.provide { name := fieldName, params := [.ptr n], result := ft }))  -- always *T receiver
 
-def migrate (c : Cfg) : Option (List KItem) :=
-  c.items.foldl (fun acc it => match acc, migrateItem c it with
-    | some l, some k => some (l ++ k)
-    | _, _ => none) (some [])
+/-- migrate the items `l`, the first of which has index `i`; output in item order -/
+def migrateFrom (c : Cfg) : Nat → List Item → Option (List KItem)
+  | _, [] => some []
+  | i, it :: r =>
+    match migrateItem c i it, migrateFrom c (i + 1) r with
+    | some k, some l => some (k ++ l)
+    | _, _ => none
+
+def migrate (c : Cfg) : Option (List KItem) := migrateFrom c 0 c.items
 
 /-! ### kessoku: by-type evaluation of the migrated declaration (unsupplied types become arguments) -/
 
 def kSupplier (ks : List KItem) (t : Ty) : Option (Nat × List Ty) :=
   ks.findSome? fun
     | .provide f => if f.result = t then some (f.name, f.params) else none
-    | .bindProvide i f => if f.result = t ∨ t = .iface i then some (f.name, f.params) else none
+    | .bindProvide is f => if f.result = t ∨ t ∈ is.map Ty.iface then some (f.name, f.params) else none
 
 def kEval (ks : List KItem) : Nat → Ty → V
   | 0, _ => .bot
@@ -126,6 +166,24 @@ def kEval (ks : List KItem) : Nat → Ty → V
     match kSupplier ks t with
     | some (name, ps) => .call name (ps.map (kEval ks fuel))
     | none => .arg t
+
+/-- the types a migrated item supplies to kessoku (`Bind[J](Bind[I](Provide(f)))` supplies `f`'s result, `I` and `J`) -/
+def kSupplied : KItem → List Ty
+  | .provide f => [f.result]
+  | .bindProvide is f => f.result :: is.map Ty.iface
+
+/-- kessoku's "multiple providers provide T" refusal (`NewGraph`): two entries of the declaration — two *positions*, the
+    provider identity there is the `ProviderSpec` pointer — supply a common type -/
+def kAmbiguous : List KItem → Bool
+  | [] => false
+  | a :: r => r.any (fun b => (kSupplied a).any fun t => (kSupplied b).contains t) || kAmbiguous r
+
+/-- the migration as the user experiences it: refused when `migrate` refuses **or** kessoku refuses the migrated
+    declaration as ambiguous -/
+def migrateChecked (c : Cfg) : Option (List KItem) :=
+  match migrate c with
+  | some ks => if kAmbiguous ks then none else some ks
+  | none => none
 
 /-! ### witnesses -/
 
@@ -142,7 +200,7 @@ def cfgBindByName : Cfg :=
     args := [.basic 0, .basic 1], ret := .ptr 2, pkgFuncs := [provideRepo, newPgRepo, newApp] }
 
 def migratedEval (c : Cfg) (fuel : Nat) : V :=
-  match migrate c with
+  match migrateChecked c with
   | some ks => kEval ks fuel c.ret
   | none => .bot
 
@@ -234,6 +292,33 @@ def itemOk (c : Cfg) : Item → Bool
 def structVal (c : Cfg) (t : Ty) : Bool :=
   c.items.any fun | .structP n _ => t == .val n | _ => false
 
+/-- every `wire.Bind` is written in the same element list as the listed provider function it stands for, and that
+    function is listed in no other element list: each listed provider function whose result type is the bound
+    implementation type sits in the `Bind`'s element list.  (By `itemOk` and supplier uniqueness that function is the
+    conventional constructor `New<T>` the migrated `Bind[I](Provide(New<T>))` names.)  With `parts = []` every item is in
+    list `0` and the condition holds trivially. -/
+def bindTogether (c : Cfg) : Bool :=
+  c.items.zipIdx.all fun p => match p.1 with
+    | .bind _ impl => c.items.zipIdx.all fun q => match q.1 with
+        | .func f => !(f.result == impl) || partOf c q.2 == partOf c p.2
+        | _ => true
+    | _ => true
+
+def nodupTys : List Ty → Bool
+  | [] => true
+  | t :: r => !r.contains t && nodupTys r
+
+/-- every type is supplied at one *position* only (the same item listed twice, or a `FieldsOf` naming two fields of one
+    type, is wire's "multiple bindings" too — conjunct 2 of `faithful` compares items by value and lets these pass; one
+    interface bound twice is excluded here as well: both `Bind`s supply the interface).
+    Several `Bind`s on one implementation **in one element list** are fine: `Bind(I0, *T)`, `Bind(I1, *T)` migrate to the one
+    item `Bind[I1](Bind[I0](Provide(NewT)))`.  `Bind`s on one implementation in two *different* element lists still migrate to
+    two items that both supply `*T`; no separate conjunct is needed to exclude them: `itemOk` lists the constructor and
+    `bindTogether` puts every `Bind` on its result type into the constructor's element list
+    (`WireProofs.Faithful.bindSameList`; cf. `C13.cfgBindTwiceApart`). -/
+def listedOnce (c : Cfg) : Bool :=
+  nodupTys (c.items.flatMap supplied)
+
 /-- Decidable subset of configurations on which `kessoku migrate` is faithful to google/wire.
     1. `itemOk` for every item (see there: `Bind` through the conventional constructor that is itself in the set; `FieldsOf`
        in pointer form).
@@ -244,11 +329,20 @@ def structVal (c : Cfg) (t : Ty) : Bool :=
        the argument, wire prefers the argument).
     4. the value form `T` of a `wire.Struct(new(T), …)` is never asked for (not the injector's result, not a parameter of a
        listed provider, not a field of a listed struct): the migration only emits the pointer form `*T`
-       (cf. `cfgStructValue`). -/
+       (cf. `cfgStructValue`).
+    5. `bindTogether`: a `Bind` and the provider it stands for are written in the same element list, and only there
+       (the migration collects bound types per element list; cf. `C13.cfgBindApart`).  Hence all `Bind`s on one
+       implementation are written in one element list (cf. `C13.cfgBindTwiceApart`).
+    6. `listedOnce`: position-wise uniqueness of suppliers.  Not needed for the equality of the computed terms (`kEval`
+       takes the first supplier), needed for the migrated declaration not to be refused as ambiguous (`kAmbiguous`).
+    An implementation type may be bound to several interfaces as long as those `Bind`s are written in one element list
+    (they are nested around one provider); 1 and 5 together force exactly that. -/
 def faithful (c : Cfg) : Bool :=
   c.items.all (itemOk c)
   && c.items.all (fun a => c.items.all fun b => a == b || (supplied a).all fun t => !(supplied b).contains t)
   && c.args.all (fun t => c.items.all fun a => !(supplied a).contains t)
   && (c.ret :: c.items.flatMap consumed).all (fun t => !structVal c t)
+  && bindTogether c
+  && listedOnce c
 
 end Wire
